@@ -179,7 +179,7 @@ inline std::vector<Dim> dims(bool thorough) {
     d.push_back({"frames", {"2", "0", "1", "3"}});
     d.push_back({"first", {"1", "5", "705"}});
     d.push_back({"events", {"0", "2", "18"}});
-    d.push_back({"rates", {"100x2", "50x2", "29.97x2", "23.976x2", "0x1"}});
+    d.push_back({"rates", {"100x2", "50x2", "29.97x2", "23.976x2", "0x1", "120000x2"}});   // 120000x2: an analog rate above 2^31/10^4 Hz
     d.push_back({"values", {"plain", "special"}});
     d.push_back({"extra", {"small", "none", "bytes", "dim3", "str1d", "empty", "int0", "all", "char0d", "ctrlws", "dsprefix", "dsother", "big", "bigint"}});
     d.push_back({"descs", {"short", "none", "lower", "d64", "d127", "d128", "d255"}});
